@@ -1,6 +1,8 @@
 package router
 
 import (
+	"context"
+
 	"github.com/IrineSistiana/mosproxy/internal/dnsmsg"
 	"github.com/IrineSistiana/mosproxy/internal/verifrt"
 )
@@ -81,4 +83,51 @@ func VerifH_C03_Handler_S24() {
 	b := mustHaveRespB(m, resp, dnsmsg.RCodeRefused, false, 1200)
 	verifrt.Assert(len(b) >= 12, "response packs")
 	verifrt.Assert(uint16(b[0])<<8|uint16(b[1]) == wantID, "packed ID")
+}
+
+// vFlakyUpstream answers like vKeyedUpstream or fails, as the solver chooses per query.
+type vFlakyUpstream struct{ vKeyedUpstream }
+
+func (u *vFlakyUpstream) ExchangeContext(ctx context.Context, q []byte) (*dnsmsg.Msg, error) {
+	if verifrt.Bool("up.fails") {
+		u.calls++
+		verifrt.Yield()
+		return nil, errVFake
+	}
+	return u.vKeyedUpstream.ExchangeContext(ctx, q)
+}
+
+// VerifH_C03_StreamListener: the TCP / DoT listener end to end (a DoT connection is this code over a tls.Conn, which —
+// unlike a TCP socket — offers no vectored write: every Write call is a record of its own and may interleave with
+// another goroutine's). Two pipelined queries whose handlers complete in either order (≤ 1 scheduling deviation),
+// the upstream answering or failing per query: the client receives exactly one response per query, each as ONE write
+// that is one complete frame, carrying its query's ID and question, SERVFAIL when the upstream failed.
+func VerifH_C03_StreamListener() {
+	verifrt.Unwind(120)
+	verifrt.SchedBound(1)
+	verifrt.CtxNoExpiry = true
+	up := &vFlakyUpstream{}
+	r := vRouter([]*rule{{upstream: &upstreamWrapper{tag: "up", u: up}}}, false)
+	s := &tcpServer{r: r, maxConcurrent: 4, idleTimeout: 1}
+	c := newVTCPConn()
+	ids := []uint16{verifrt.U16("id"), verifrt.U16("id")}
+	done := make(chan struct{})
+	go func() { s.handleConn(c); close(done) }()
+	c.inbox <- append(vFrame(vQueryMsg(ids[0], 'a', false, 0)), vFrame(vQueryMsg(ids[1], 'b', false, 0))...)
+	verifrt.Quiesce()
+	c.Close()
+	<-done
+	verifrt.Reach("served")
+	bodies := vCheckFrames(c.writes)
+	verifrt.Assert(len(bodies) == 2, "exactly one response per query")
+	seen := [2]int{}
+	for _, b := range bodies {
+		i := int(b[13] - 'a')
+		verifrt.Assert(i == 0 || i == 1, "response question is one of the queries")
+		seen[i]++
+		rcode := b[3] & 0xF
+		verifrt.Assert(rcode == 0 || rcode == 2, "answered, or SERVFAIL when the upstream failed")
+		vCheckResponse(b, ids[i], b[13], rcode == 0)
+	}
+	verifrt.Assert(seen[0] == 1 && seen[1] == 1, "each query answered exactly once")
 }
